@@ -10,7 +10,7 @@ use crate::runner::*;
 use serde_json::{json, Value};
 use std::collections::BTreeSet;
 
-pub const RULE: &str = "grammar-generated pytest modules with position-stressing decorations (multi-line / hanging-indent / annotated signatures, positional-only and keyword-only markers, single / double / triple-quoted / prefixed / implicitly concatenated strings in usefixtures and parametrize, indirect=True with several names, tabs, CRLF, a non-ASCII identifier before other tokens, one-line and assignment-style fixtures), opened in the real server; every range of documentSymbol, workspace/symbol, references, definition, implementation, publishDiagnostics, inlayHint, prepareCallHierarchy, incomingCalls, outgoingCalls and codeLens is checked: inside the document, start <= end, selectionRange inside range, name-marking ranges equal a CPython NAME token / string content span in UTF-16 units with the right text, navigation targets on the def / yield line, no duplicates. Non-trivial = the document has a multi-line signature, a non-plain string form or non-ASCII text before a token; distinct = distinct module values.";
+pub const RULE: &str = "the document is opened once, or (4 cases in 7) its final text arrives as a didChange of an earlier version under the same path: a blank line moved to the other side of the module, the same inside a document of more than 4 KiB whose length and first and last 2.5 KiB do not change, or an unrelated earlier text; the oracle only sees the final text. Documents: grammar-generated pytest modules with position-stressing decorations (multi-line / hanging-indent / annotated signatures, positional-only and keyword-only markers, single / double / triple-quoted / prefixed / implicitly concatenated strings in usefixtures and parametrize, indirect=True with several names, tabs, CRLF, a non-ASCII identifier before other tokens, one-line and assignment-style fixtures), opened in the real server; every range of documentSymbol, workspace/symbol, references, definition, implementation, publishDiagnostics, inlayHint, prepareCallHierarchy, incomingCalls, outgoingCalls and codeLens is checked: inside the document, start <= end, selectionRange inside range, name-marking ranges equal a CPython NAME token / string content span in UTF-16 units with the right text, navigation targets on the def / yield line, no duplicates. Non-trivial = the document has a multi-line signature, a non-plain string form or non-ASCII text before a token; distinct = distinct module values.";
 pub const ASSUMPTIONS: &[&str] = &[
     "CPython 3.11 tokenize/ast as the position oracle; documents only rustpython rejects are skipped and counted",
     "single-document sessions: cross-file ranges are covered through C01/C04's server tiers",
